@@ -43,7 +43,40 @@ fn table(m: &ir::Module) -> String {
     for id in m.variable_registry.iter() {
         w.push(format!("L {} {}", id.0, m.variable_registry.get_local_variable(id).name.node));
     }
+    // what else can hide a root symbol from a path that does not start with `::`: enum values of namespaced enums,
+    // struct members, struct methods
+    w.push("|".into());
+    for i in 0..m.enum_registry.get_enum_count() {
+        let d = m.enum_registry.get_enum_definition(ir::EnumId(i));
+        if let Some(ns) = d.namespace {
+            for v in m.enum_registry.get_values(ir::EnumId(i)) { w.push(format!("V {} {}", ns.0, m.enum_registry.get_enum_value(*v).name.node)); }
+        }
+    }
+    for s in m.struct_registry.iter() {
+        for mem in &s.members { w.push(format!("M {}", mem.name)); }
+        for f in &s.methods { w.push(format!("T {}", f.0)); }
+    }
     w.join(" ")
+}
+
+/// for every struct / enum / global / function: one flag per use site (the root, then every namespace in id order) -
+/// does the path written from the root need the leading `::` there
+fn anchors(m: &ir::Module, map: &NameMap, out: &mut Vec<String>) {
+    let mut sites: Vec<Option<ir::NamespaceId>> = vec![None];
+    for i in 0..m.namespace_registry.get_namespace_count() { sites.push(Some(ir::NamespaceId(i))); }
+    let mut one = |tag: u32, id: u32, sym: NameSymbol, out: &mut Vec<String>| {
+        let flags: String = sites.iter().map(|u| if map.get_name_qualified(sym, *u).1 { '1' } else { '0' }).collect();
+        out.push(format!("Q:{}:{}={}", tag, id, flags));
+    };
+    for i in 0..m.struct_registry.len() { one(1, i as u32, NameSymbol::Struct(ir::StructId(i as u32)), out); }
+    for i in 0..m.enum_registry.get_enum_count() { one(2, i, NameSymbol::Enum(ir::EnumId(i)), out); }
+    for (i, g) in m.global_registry.iter().enumerate() { if !g.is_intrinsic { one(3, i as u32, NameSymbol::GlobalVariable(ir::GlobalId(i as u32)), out); } }
+    for id in m.function_registry.iter() {
+        if m.function_registry.get_intrinsic_data(id).is_some() { continue; }
+        let sig = m.function_registry.get_function_signature(id);
+        if !sig.template_params.is_empty() && m.function_registry.get_template_instantiation_data(id).is_none() { continue; }
+        one(4, id.0, NameSymbol::Function(id), out);
+    }
 }
 
 fn names(m: &ir::Module, msl: bool) -> String {
@@ -76,6 +109,7 @@ fn names(m: &ir::Module, msl: bool) -> String {
     for id in m.variable_registry.iter() {
         out.push(format!("L:{}={}", id.0, map.get_name_leaf(NameSymbol::LocalVariable(id))));
     }
+    anchors(m, &map, &mut out);
     out.join(" ")
 }
 
@@ -145,6 +179,24 @@ pub fn run_line(line: &str) -> String {
         }
         return run_reserved(w[0], w[1], w[2]);
     }
+    if let Some(rest) = line.strip_prefix("U ") {
+        // every use refers to the entity it referred to in the source: the emitted HLSL is read back and every
+        // function body must name the same entities (the comparison of C01, on programs made of shadowing names)
+        let r = crate::c01::run_line(&format!("E dx shadow:{}", rest.trim()));
+        if let Some(body) = r.strip_prefix("PAIRS ") {
+            let mut n = 0;
+            for item in body.split(" ;; ").skip(1) {
+                let (name, rest) = match item.split_once(" :: ") { Some(x) => x, None => continue };
+                let (a, b) = match rest.split_once(" || ") { Some(x) => x, None => continue };
+                if crate::sdump::canonical_locals(a) != crate::sdump::canonical_locals(b) {
+                    return format!("USES-DIFFER {} :: {} || {}", name, a, b);
+                }
+                n += 1;
+            }
+            return format!("USES-SAME {}", n);
+        }
+        return r;
+    }
     let parts: Vec<&str> = line.splitn(2, " # ").collect();
     if parts.len() != 2 {
         return "BAD-CASE".into();
@@ -204,6 +256,95 @@ fn gen_scope(rng: &mut Rng, reserved: &[&str], depth: u32, src: &mut String) {
     }
 }
 
+/// declarations whose names come from a tiny pool, nested three namespaces deep, with enum values, struct members
+/// and methods of the same names: most root paths are hidden somewhere
+fn gen_shadow_scope(rng: &mut Rng, depth: u32, k: &mut u32, src: &mut String) {
+    const POOL: &[&str] = &["a", "b", "f", "g"];
+    let n = rng.range(1, 5);
+    for _ in 0..n {
+        let name = *rng.pick(POOL);
+        *k += 1;
+        match rng.below(9) {
+            0 => *src += &format!("struct S{} {{ int {}; int {}() {{ return {}; }} }};\n", k, name, rng.pick(POOL), k),
+            1 => *src += &format!("enum E{} {{ {} }};\n", k, name),
+            2 | 3 => *src += &format!("static const int {} = {};\n", name, k),
+            4 | 5 => *src += &format!("int {}() {{ int {} = {}; return {}; }}\n", name, rng.pick(POOL), k, k),
+            _ if depth > 0 => {
+                *src += &format!("namespace {} {{\n", rng.pick(&["a", "b", "N"]));
+                gen_shadow_scope(rng, depth - 1, k, src);
+                *src += "}\n";
+            }
+            _ => *src += &format!("static const float {} = {}.0;\n", name, k),
+        }
+    }
+}
+
+/// a program of shadowing declarations plus, in every namespace, functions that use what the front end lets them use
+/// through anchored, full and partial paths; each use is kept only if the program still type checks with it
+pub fn shadow_program(seed: u64) -> String {
+    let mut rng = Rng::new(seed ^ 0x5ad0);
+    const NS: &[&str] = &["A", "B"];
+    const FN: &[&str] = &["f", "g"];
+    // namespaces as paths from the root; the root is the empty path
+    let mut scopes: Vec<Vec<&str>> = vec![vec![]];
+    fn grow<'a>(rng: &mut Rng, at: Vec<&'a str>, depth: u32, scopes: &mut Vec<Vec<&'a str>>) {
+        if depth == 0 { return; }
+        for n in NS {
+            if rng.chance(3, 5) {
+                let mut p = at.clone(); p.push(*n);
+                scopes.push(p.clone());
+                grow(rng, p, depth - 1, scopes);
+            }
+        }
+    }
+    grow(&mut rng, vec![], 3, &mut scopes);
+    // what each scope declares: functions returning a distinct number, constants
+    let mut decls: Vec<(Vec<&str>, String, bool)> = Vec::new();   // scope, name, is function
+    let mut k = 0;
+    let mut body = std::collections::BTreeMap::<Vec<&str>, String>::new();
+    for sc in &scopes {
+        let mut text = String::new();
+        for f in FN { if rng.chance(1, 2) { k += 1; text += &format!("int {}() {{ return {}; }}\n", f, k); decls.push((sc.clone(), f.to_string(), true)); } }
+        if rng.chance(1, 3) { k += 1; text += &format!("static const int v = {};\n", k); decls.push((sc.clone(), "v".into(), false)); }
+        body.insert(sc.clone(), text);
+    }
+    fn render(scopes: &[Vec<&str>], body: &std::collections::BTreeMap<Vec<&str>, String>, at: &[&str], out: &mut String) {
+        *out += &body[&at.to_vec()];
+        for sc in scopes {
+            if sc.len() == at.len() + 1 && sc[..at.len()] == *at {
+                *out += &format!("namespace {} {{\n", sc[at.len()]);
+                render(scopes, body, sc, out);
+                *out += "}\n";
+            }
+        }
+    }
+    let mut base = String::new();
+    render(&scopes, &body, &[], &mut base);
+    if decls.is_empty() { return base; }
+    let mut uses = String::new();
+    let mut u = 0;
+    for sc in &scopes {
+        for _ in 0..4 {
+            let (dsc, name, is_fn) = rng.pick(&decls).clone();
+            let mut full: Vec<String> = dsc.iter().map(|x| x.to_string()).collect();
+            full.push(name);
+            let take = rng.range(1, full.len() as u64) as usize;
+            let mut path = full[full.len() - take..].join("::");
+            if take == full.len() && rng.chance(1, 2) { path = format!("::{}", path); }
+            let expr = if is_fn { format!("{}()", path) } else { path };
+            u += 1;
+            let mut block = String::new();
+            for n in sc { block += &format!("namespace {} {{ ", n); }
+            block += &format!("int use{}() {{ return {}; }}", u, expr);
+            for _ in sc { block += " }"; }
+            block += "\n";
+            let trial = format!("{}{}{}", base, uses, block);
+            if let Ok(Ok(_)) = catch(|| front_end(&trial)) { uses += &block; }
+        }
+    }
+    format!("{}{}", base, uses)
+}
+
 pub fn gen_cases(seed: u64, n: usize, _thorough: bool) -> Vec<String> {
     let mut rng = Rng::new(seed);
     let mut out = Vec::new();
@@ -236,5 +377,12 @@ pub fn gen_cases(seed: u64, n: usize, _thorough: bool) -> Vec<String> {
         gen_scope(&mut rng, reserved, 2, &mut src);
         push(msl, src, &mut out);
     }
+    for _ in 0..n / 3 {
+        let mut src = String::new();
+        let mut k = 0;
+        gen_shadow_scope(&mut rng, 3, &mut k, &mut src);
+        push(rng.chance(1, 2), src, &mut out);
+    }
+    for _ in 0..n / 10 { out.push(format!("U {}", rng.below(1 << 40))); }
     out
 }
